@@ -270,18 +270,12 @@ func genCli() {
 	m.str("mgmtTemplate", tmpl, "mgmtConfigTemplateText")
 	m.strs("mgmtHoles", holes, "every action of the mgmt template with the literal text preceding it on its line")
 	m.strs("mgmtConfWiring", wiring, "fields of mgmtConf as filled by generateMgmtFiles")
-	// the two flag-fed fields take their value from the matching flag (possibly through a helper call)
-	from := func(field, want, other string) bool {
-		for _, w := range wiring {
-			k, v, ok := strings.Cut(w, ":")
-			if ok && strings.TrimSpace(k) == field {
-				return strings.Contains(v, "g.usageReportConfig."+want) && !strings.Contains(v, "g.usageReportConfig."+other)
-			}
-		}
-		return false
+	{
+		var body []string
+		try("nginxAddr", func() {
+			g := src("internal/mode/static/nginx/config/main_config.go")
+			body = g.stmts(g.fn("", "nginxAddr").Body)
+		})
+		m.strs("nginxAddrBody", body, "top-level statements of nginxAddr (brackets around a bare IPv6 address)")
 	}
-	m.boolean("mgmtEndpointFromEndpointFlag", from("Endpoint", "Endpoint", "Resolver"),
-		"mgmtConf.Endpoint is computed from usageReportConfig.Endpoint only")
-	m.boolean("mgmtResolverFromResolverFlag", from("Resolver", "Resolver", "Endpoint"),
-		"mgmtConf.Resolver is computed from usageReportConfig.Resolver only")
 }
